@@ -41,6 +41,18 @@ Proof.
   intros W e c0 Hg Hr Hv Hn. apply C19_optimize_sound; auto. now apply no_scope_pre_ok.
 Qed.
 
+(** The same with the decidable hypotheses that [check_case] evaluates on every case. *)
+Theorem C19_optimize_sound_checked : forall (W : world) (e : expr) (c0 : vctx),
+  graph_ok (w_graph W) ->
+  x_refs c0 = [] -> has_pos (length (w_graph W)) (x_vis c0) = true ->
+  pre_okb (length (w_graph W)) e = true ->
+  den W c0 (optimize e) = den W c0 (rrc e).
+Proof.
+  intros W e c0 Hg Hr Hv Hp. apply C19_optimize_sound; auto.
+  - now apply has_pos_spec.
+  - now apply pre_okb_pre_ok.
+Qed.
+
 (** Listing = what [Revset::stream] yields.  When neither evaluation raises the
     generation-bound error (see [C19_optimize_error_refuted] for why this side condition
     cannot be dropped), optimized and unoptimized evaluation list the same commits. *)
